@@ -283,6 +283,10 @@ func release(q *ecs.Query, path int) string {
 
 // C09: world lock.
 func caseC09(c *Ctx) {
+	if c.Mode == "ledger" {
+		caseC09Ledger(c)
+		return
+	}
 	rows := LockRows()
 	limit := ecs.MaskTotalBits
 	cfg := GenCfg(c.R, 40)
@@ -454,4 +458,56 @@ func caseC09(c *Ctx) {
 		}
 	}
 	finish(c, s, nontrivial)
+}
+
+// caseC09Ledger: full-mix histories under randomly restricted listeners (incl. Dispatch); the world must be
+// unlocked after every operation (no query is open between operations) and locked inside every removal callback.
+func caseC09Ledger(c *Ctx) {
+	cfg := GenCfg(c.R, 40)
+	p := DefaultProfile()
+	p.Steps = 150
+	p.Scale(3, "RemoveEntity", "BatchRemoveEntities", "NewBatch", "BatchExchange", "BatchSetRel")
+	p.Zero("RegisterType")
+	s := NewSess(cfg, Opts{Model: true, Inv: c.Case%2 == 0, Track: true, NoTrans: true})
+	g := NewGen(c.R, s, p)
+	inCallbackUnlocked := 0
+	install := func() {
+		mk := func() ecs.Listener {
+			comps := []int{}
+			if c.R.Chance(0.7) {
+				comps = g.subsetAny(g.used(), 3)
+			}
+			cb := listener.NewCallback(func(w *ecs.World, e ecs.EntityEvent) {
+				if e.Contains(event.EntityRemoved) && !w.IsLocked() {
+					inCallbackUnlocked++
+				}
+				s.Cov.N["ledger_callbacks"]++
+			}, event.Subscription(1+c.R.Intn(63))|event.EntityRemoved, s.ids(comps)...)
+			return &cb
+		}
+		if c.R.Chance(0.3) {
+			d := listener.NewDispatch(mk(), mk())
+			s.W.SetListener(&d)
+		} else {
+			s.W.SetListener(mk())
+		}
+		s.Cov.N["ledger_listeners_installed"]++
+	}
+	install()
+	for i := 0; i < p.Steps && !s.Failed(); i++ {
+		if c.R.Chance(0.05) {
+			install()
+		}
+		s.Do(g.Next())
+		if s.Failed() {
+			break
+		}
+		if !lockLedger(s, 0, "after an operation with a restricted listener installed") {
+			break
+		}
+		if inCallbackUnlocked > 0 {
+			s.fail("lock.removal", "a removal event was delivered with the world unlocked")
+		}
+	}
+	finish(c, s, s.Cov.N["ledger_callbacks"] >= 10 && s.Cov.N["batch_2tables"] >= 1)
 }
